@@ -260,6 +260,10 @@ def cfg_fit(tier, seed):
                 b = [x for x in cells if x not in a]
                 if len(b) >= 3:
                     out.append({'shape': list(shp), 'segs': [[list(x) for x in a], [list(x) for x in b]], 'ps': ps, 'inplace': rng.random() < 0.5})
+        if shp == (3, 4):
+            # an OPD held as integers (e.g. nanometre counts): the same fit, not a type error
+            out.append({'shape': list(shp), 'segs': [[list(x) for x in cells]], 'ps': [1, 1], 'inplace': False, 'intopd': True})
+            out.append({'shape': list(shp), 'segs': [[list(x) for x in cells if x[1] < 2], [list(x) for x in cells if x[1] >= 2]], 'ps': [1, 1], 'inplace': True, 'intopd': True})
         sub = rng.sample(cells, max(3, len(cells) - 1))
         out.append({'shape': list(shp), 'segs': [[list(x) for x in sorted(sub)]], 'ps': [1, 1], 'inplace': True})
     return out, len(out), True
@@ -270,6 +274,9 @@ def run_fit(W, cfg):
     shp = tuple(cfg['shape'])
     nseg = len(cfg['segs'])
     O = W.reals('o', shp, lo=-1, hi=1)
+    if cfg.get('intopd'):
+        O = rnp.array([[(7 * r * r + 3 * c + r * c * c) % 11 - 5 for c in range(shp[1])] for r in range(shp[0])])
+        W.ob('anchor', W.real('unused') * 1, W.real('unused'))
     O0 = O.copy()
     ps = tuple(cfg['ps'])
     mask = rnp.zeros((nseg,) + shp, dtype=int)
@@ -301,7 +308,10 @@ def run_fit(W, cfg):
         res = []
         for (r, c) in seg:
             rr, cc = (r - shp[0] // 2) * ps[0], (c - shp[1] // 2) * ps[1]
-            W.ob(f'opd_after + recorded ramp = opd_before [{g}]({r},{c})', after[r, c] + tx_ * rr - ty_ * cc, O0[r, c])
+            if cfg.get('intopd'):
+                W.ob_close(f'opd_after + recorded ramp = opd_before [{g}]({r},{c})', after[r, c] + tx_ * rr - ty_ * cc, float(O0[r, c]), 1e-9)
+            else:
+                W.ob(f'opd_after + recorded ramp = opd_before [{g}]({r},{c})', after[r, c] + tx_ * rr - ty_ * cc, O0[r, c])
             res.append((rr, cc, after[r, c]))
         # least squares: the residual (opd_after on the segment, piston included) is orthogonal to tip and tilt after removing its mean,
         # i.e. normal equations  sum (v - mean) * rr = 0 ,  sum (v - mean) * cc = 0   (tolerance for the float pinv weights)
